@@ -769,7 +769,8 @@ impl Vm {
             rest = rest.cdr().unwrap();
             count += 1;
         }
-        if rest.is_pair() {
+        // The tail of a dotted template is a template too: (a . ,b) or (a . #(,b))
+        if rest.is_pair() || rest.is_vector() {
             self.compile_quasiquote(lambda, rest, depth)?;
             lambda.emit(OpCode::PushAcc);
         } else {
